@@ -271,6 +271,9 @@ def run(rep, tier, seed):
         uniq.setdefault(_key(c), c)
     todo = list(uniq.values())
     rep.extra["distinct_behaviours_executed"] = len(todo)
+    if any(c["site"].startswith("res_") for c in todo):     # produce the evo_res inputs once, before forking
+        dd = core.subdir("reswarm")
+        _res_inputs(dd)
     _figs(["warm"])  # import matplotlib before forking
     import matplotlib.pyplot as plt
     plt.close("all")
